@@ -952,10 +952,15 @@ func (pc *PartitionContext) tryPlaceholderAllocate() *objects.AllocationResult {
 	// try allocating from the root down
 	result := pc.root.TryPlaceholderAllocate(pc.GetNodeIterator, pc.GetNode)
 	if result != nil {
+		// the replacement can be reversed by the RM (placeholder or node removed) at any time: the link might be gone
+		phKey := ""
+		if ph := result.Request.GetRelease(); ph != nil {
+			phKey = ph.GetAllocationKey()
+		}
 		log.Log(log.SchedPartition).Info("scheduler replace placeholder processed",
 			zap.String("appID", result.Request.GetApplicationID()),
 			zap.String("allocationKey", result.Request.GetAllocationKey()),
-			zap.String("placeholder released allocationKey", result.Request.GetRelease().GetAllocationKey()))
+			zap.String("placeholder released allocationKey", phKey))
 		// pass the release back to the RM via the cluster context
 		return result
 	}
